@@ -89,7 +89,7 @@ NEST = {
     "ifexpr":  (WRAP_PRE, "if 1 ? (", "1", ") : 0", WRAP_POST),
     "caseexpr": (WRAP_PRE, "case 1 { 0: ", "1", ", default: 0 }", WRAP_POST),
     "width":   ("module A {\n  var a: ", "logic<$bits(", "logic", ")>", ";\n}\n"),
-    "block":   ("module A {\n  always_comb ", "{ ", "", " }", "\n}\n"),
+    "block":   ("module A {\n  always_comb {\n", "block { ", "", " }", "\n  }\n}\n"),
     "ifstmt":  ("module A {\n  always_comb {\n", "if 1 { ", "a = 1;", " }", "\n}\n}\n"),
     "forstmt": ("module A {\n  always_comb {\n", "for i in 0..1 { ", "a = 1;", " }", "\n}\n}\n"),
     "genif":   ("module A {\n", "if 1 :g { ", "", " }", "\n}\n"),
@@ -128,10 +128,10 @@ def nest_case(name, n, table=None):
     return N(pre, op, n, mid, cl, post)
 
 
-def structured_cases(rng, tier):
-    """hand-shaped hostile inputs: (tag, wire)"""
+def structured_cases(rng, tier, big=1 << 20):
+    """hand-shaped hostile inputs: (tag, wire).  big = length of the long token runs (1 MB for the
+    release profile; the unoptimised debug build gets 64 KB runs)"""
     out = []
-    big = 1 << 20
     # long token runs (1 MB)
     runs = {
         "ident-1MB": "a" * big, "digits-1MB": "1" * big, "plus-1MB": "+" * big, "spaces-1MB": " " * big,
@@ -139,7 +139,7 @@ def structured_cases(rng, tier):
         "string-1MB": "\"" + "x" * big + "\"", "hexlit-1MB": "128'h" + "f" * big, "underscores-1MB": "1" + "_1" * (big // 2),
         "multibyte-1MB": "名" * (big // 3), "stars-1MB": "/" + "*" * big, "quotes-1MB": "'" * big,
         "lbraces-1MB": "{" * big, "semis-1MB": ";" * big, "colons-1MB": ":" * big, "dots-1MB": "." * big,
-        "nul-64k": "\x00" * 65536, "bom-64k": "\ufeff" * 65536,
+        "nul-64k": "\x00" * min(big, 65536), "bom-64k": "\ufeff" * min(big, 65536),
     }
     for tag, t in runs.items():
         out.append(("run:" + tag, H(t)))
@@ -158,17 +158,17 @@ def structured_cases(rng, tier):
         for suffix in ("", "\n", " ", "\n\n", "\t"):
             out.append(("stub", H(s + suffix)))
     # deep nesting of every bracket kind, balanced and not
-    depths = [10, 200, 1150, 1153, 5000] + ([100000] if tier == "quick" else [100000, 1000000])
+    depths = [10, 200, 1150, 1153, 5000] + ([big // 10] if tier == "quick" else [big // 10, big])
     for b in BRACKETS:
         for d in depths:
             out.append(("open-only:" + b.strip(), H(b * d)))
             out.append(("open-only-in-module:" + b.strip(), H(WRAP_PRE + b * d)))
     for name in NEST:
-        for d in [1, 50, 2000, 20000] + ([] if tier == "quick" else [200000]):
+        for d in [1, 50, 2000, big // 50] + ([] if tier == "quick" else [big // 5]):
             out.append(("deep:" + name, nest_case(name, d)))
     # very long flat chains
     for name in FLAT:
-        for d in [0, 1, 3000, 50000] + ([] if tier == "quick" else [300000]):
+        for d in [0, 1, 3000, big // 20] + ([] if tier == "quick" else [big // 3]):
             out.append(("flat:" + name, nest_case(name, d, FLAT)))
     # deep nesting that is never closed / closed too often
     for name in NEST:
@@ -393,7 +393,7 @@ def hostile_programs(rng, tier):
         "let-self": "module A {\n    let a: logic<8> = a + 1;\n}\n",
         "assign-self": "module A {\n    var a: logic<8>;\n    assign a = a + 1;\n}\n",
         "comb-loop-long": "module A {\n" + "".join("    var a%d: logic;\n    assign a%d = a%d;\n" % (i, i, (i + 1) % 300) for i in range(300)) + "}\n",
-        "bind-self": "module A {\n}\nbind A <- A u ();\n",
+        "bind-self": "module A {\n}\nbind A <- u: A;\n",
         "import-in-self-module": "module A {\n    import A::*;\n}\n",
         "var-type-is-var": "module A {\n    var a: a;\n}\n",
         "var-type-is-module": "module A {\n    var a: A;\n    assign a = 0;\n}\n",
@@ -403,9 +403,9 @@ def hostile_programs(rng, tier):
         "member-of-scalar": "module A {\n    var v: logic;\n    var w: logic;\n    assign v = 1;\n    assign w = v.x.y.z;\n}\n",
         "pkg-as-value": "package P {\n}\nmodule A {\n    var w: logic;\n    assign w = P;\n}\n",
         "type-as-value": "module A {\n    var w: logic<8>;\n    assign w = logic + u32;\n}\n",
-        "empty-enum": "module A {\n    enum E {\n    }\n    var e: E;\n}\n",
-        "empty-struct": "module A {\n    struct S {\n    }\n    var s: S;\n    assign s = 0;\n}\n",
-        "empty-union": "module A {\n    union U {\n    }\n    var u: U;\n}\n",
+        "empty-enum": "module A {\n    enum E {\n        X,\n    }\n    var e: E;\n}\n",
+        "empty-struct": "module A {\n    struct S {\n        a: logic<0>,\n    }\n    var s: S;\n    assign s = 0;\n}\n",
+        "empty-union": "module A {\n    union U {\n        a: logic<0>,\n    }\n    var u: U;\n}\n",
         "enum-dup": "module A {\n    enum E {\n        X = 1,\n        Y = 1,\n        X,\n    }\n    var e: E;\n    assign e = E::X;\n}\n",
         "enum-xz": "module A {\n    enum E: logic<2> {\n        X = 2'bxz,\n        Y,\n    }\n    var e: E;\n    assign e = E::Y;\n}\n",
         "enum-onehot-many": "module A {\n    #[enum_encoding(onehot)]\n    enum E {\n" + "".join("        X%d,\n" % i for i in range(200)) + "    }\n    var e: E;\n    assign e = E::X199;\n}\n",
@@ -414,8 +414,8 @@ def hostile_programs(rng, tier):
         "struct-zero-width": "module A {\n    struct S {\n        a: logic<0>,\n        b: bit<0>,\n    }\n    var s: S;\n    assign s.a = 0;\n    assign s.b = s.a;\n}\n",
         "union-mismatch": "module A {\n    union U {\n        a: logic<3>,\n        b: logic<70>,\n    }\n    var u: U;\n    assign u.a = 0;\n}\n",
         "struct-ctor": "module A {\n    struct S {\n        a: logic<3>,\n    }\n    var s: S;\n    assign s = S'{a: 1, b: 2, a: 3};\n}\n",
-        "struct-ctor-default": "module A {\n    struct S {\n        a: logic<3>,\n        b: logic<70>,\n    }\n    var s: S;\n    assign s = S'{..default(1)};\n}\n",
-        "array-literal": "module A {\n    var a: logic<2> [3, 0, 2];\n    assign a = '{'{}, default: 1};\n}\n",
+        "struct-ctor-default": "module A {\n    struct S {\n        a: logic<3>,\n        b: logic<70>,\n    }\n    var s: S;\n    assign s = S'{a: 1, ..default(1)};\n}\n",
+        "array-literal": "module A {\n    var a: logic<2> [3, 0, 2];\n    assign a = '{'{0}, default: 1};\n}\n",
         "array-literal-deep": "module A {\n    var a: logic [2, 2];\n    assign a = '{'{0, 1, 2}, '{0 repeat 5}, default: '{default: 1}};\n}\n",
         "clock-expr": "module A {\n    let c: clock = 1 / 0;\n    var a: logic;\n    always_ff (c) {\n        a = 1;\n    }\n}\n",
         "ff-no-clock": "module A {\n    var a: logic;\n    always_ff {\n        a = 1;\n    }\n}\n",
@@ -423,11 +423,11 @@ def hostile_programs(rng, tier):
         "if-reset-outside": "module A {\n    var a: logic;\n    always_comb {\n        if_reset {\n            a = 1;\n        }\n    }\n}\n",
         "return-outside": "module A {\n    var a: logic;\n    always_comb {\n        return 1;\n    }\n}\n",
         "break-outside": "module A {\n    var a: logic;\n    always_comb {\n        break;\n    }\n}\n",
-        "embed": "embed (inline) sv{{{\n  }}} \\{{{ x }}}\n}}}\nmodule A {\n}\n",
+        "embed": "embed (inline) sv{{{\n  module x; endmodule\n}}}\nembed (cocotb) py{{{\nimport os\n}}}\nmodule A {\n}\n",
         "include-missing": "include(inline, \"no_such_file.sv\");\nmodule A {\n}\n",
         "include-self": "include(inline, \"case.veryl\");\nmodule A {\n}\n",
         "include-abs": "include(inline, \"/dev/null\");\ninclude(inline, \"/\");\ninclude(inline, \"\");\nmodule A {\n}\n",
-        "attr-junk": "#[sv(\"\")]\n#[allow(nothing)]\n#[ifdef()]\n#[test(x, y, z)]\n#[enum_encoding(nothing)]\n#[fmt(zzz)]\n#[align(1)]\n#[cond_type(x)]\n#[unknown]\nmodule A {\n}\n",
+        "attr-junk": "#[sv(\"\")]\n#[allow(nothing)]\n#[ifdef(X)]\n#[test(x, y, z)]\n#[enum_encoding(nothing)]\n#[fmt(zzz)]\n#[cond_type(x)]\n#[unknown]\nmodule A {\n}\n",
         "ifdef-nest": "#[ifdef(X)]\n#[ifndef(X)]\n#[elsif(Y)]\n#[else]\nmodule A {\n    #[else]\n    var a: logic;\n}\n",
         "test-attr": "#[test(t)]\nembed (inline) sv{{{\nmodule t; endmodule\n}}}\n#[test(t2, A)]\nmodule A {\n    initial {\n        $finish();\n    }\n}\n",
         "raw-ident": "module r#module {\n    var r#var: logic;\n    assign r#var = r#if;\n}\n",
@@ -437,16 +437,16 @@ def hostile_programs(rng, tier):
         "connect-op": "interface I {\n    var a: logic;\n    modport m {\n        a: output,\n    }\n    modport s {\n        a: input,\n    }\n}\nmodule A (\n    p: modport I::m,\n    q: modport I::s,\n) {\n    connect p <> q;\n    connect q <> 0;\n    connect p <> p;\n    connect p.a <> q;\n}\n",
         "port-default": "module B (\n    a: input logic<8> = 1 / 0,\n    b: output logic<8> = _,\n    c: input logic = undefined_x,\n) {\n    assign b = a;\n}\nmodule A {\n    inst b: B;\n}\n",
         "inst-array": "module B {\n}\nmodule A {\n    inst b: B [0];\n    inst c: B [4294967296];\n    inst d: B [2, 0 - 1];\n}\n",
-        "let-types": "module A {\n    let a: type = logic;\n    let b: string = 1;\n    let c: clock = \"x\";\n    let d: logic<2> [2] = '{default: 'x};\n}\n",
+        "let-types": "module A {\n    let b: string = 1;\n    let c: clock = \"x\";\n    let d: logic<2> [2] = '{default: 'x};\n}\n",
         "fn-many-args": "module A {\n    function f (\n        a: input u32,\n    ) -> u32 {\n        return a;\n    }\n    var x: logic<8>;\n    assign x = f() + f(1, 2, 3) + f(a: 1, a: 2) + f(b: 1) + f(f(f(f(1))));\n}\n",
-        "fn-output-arg-const": "module A {\n    function f (\n        a: output u32,\n        b: inout u32,\n        c: ref u32,\n    ) {\n        a = 1;\n    }\n    always_comb {\n        f(1, 2, 3);\n        f(undefined_x, A, f);\n    }\n}\n",
-        "nested-generic": "module A::<T: type = u32, N: u32 = T> {\n    var a: T<N>;\n}\nmodule B {\n    inst a: A::<>;\n    inst b: A::<B, B>;\n    inst c: A::<1, logic>;\n    inst d: A::<A::<u32, 1>, 1>;\n}\n",
-        "cond-type": "module A {\n    #[cond_type(unique)]\n    case undefined_x {\n        0: undefined_y = 1;\n    }\n}\n",
+        "fn-output-arg-const": "module A {\n    function f (\n        a: output u32,\n        b: inout u32,\n    ) {\n        a = 1;\n    }\n    always_comb {\n        f(1, 2);\n        f(undefined_x, A);\n    }\n}\n",
+        "nested-generic": "module A::<T: type = u32, N: u32 = T> {\n    var a: T<N>;\n}\nmodule B {\n    inst a: A::<>;\n    inst b: A::<B, B>;\n    inst c: A::<1, B>;\n    inst d: A::<A::<u32, 1>, 1>;\n}\n",
+        "cond-type": "module A {\n    always_comb {\n        #[cond_type(unique)]\n        case undefined_x {\n            0: undefined_y = 1;\n        }\n    }\n}\n",
         "same-names": "module A {\n    var A: logic;\n    var a: logic;\n    var a: logic<2>;\n    function a () {}\n    struct a {\n        a: a,\n    }\n    enum a {\n        a,\n    }\n    assign a = a::a;\n}\nmodule A {\n}\npackage A {\n}\ninterface A {\n}\n",
         "unsafe-cdc": "module A (\n    c1: input 'a clock,\n    c2: input 'b clock,\n    i: input 'a logic,\n    o: output 'b logic,\n) {\n    unsafe (cdc) {\n        assign o = i;\n    }\n    unsafe (nothing) {\n        unsafe (cdc) {\n        }\n    }\n}\n",
-        "initial-final": "module A {\n    initial {\n        $display(\"%d %s %\", 1);\n        $finish;\n        undefined_f(1);\n    }\n    final {\n        $assert(1 / 0);\n    }\n}\n",
+        "initial-final": "module A {\n    initial {\n        $display(\"%d %s %\", 1);\n        $finish();\n        undefined_f(1);\n    }\n    final {\n        $assert(1 / 0);\n    }\n}\n",
         "wide-mul": "module A {\n    const X: bit<4096> = (1 << 4095) * (1 << 4095);\n    const Y: bit<65536> = 2 ** 65535;\n    var a: logic<8>;\n    assign a = X + Y;\n}\n",
-        "big-struct": "module A {\n    struct S {\n" + "".join("        f%d: logic<64>,\n" % i for i in range(300)) + "    }\n    var s: S [64];\n    assign s[0].f299 = 1;\n}\n",
+        "big-struct": "module A {\n    struct S {\n" + "".join("        g%d: logic<64>,\n" % i for i in range(300)) + "    }\n    var s: S [64];\n    assign s[0].g299 = 1;\n}\n",
         "many-dims": "module A {\n    var a: logic<2, 2, 2, 2, 2, 2, 2, 2> [2, 2, 2, 2, 2, 2, 2, 2];\n    assign a[1][1][1][1][1][1][1][1][1][1][1][1][1][1][1][1][1] = 1;\n}\n",
         "giant-dims": "module A {\n    var a: logic<65536, 65536> [65536, 65536];\n    var b: logic [1000000000];\n    assign a[0][0] = 1;\n    assign b = '{default: 0};\n}\n",
         "giant-array-loop": "module A {\n    var b: logic<8> [100000];\n    always_comb {\n        for i in 0..100000 {\n            b[i] = i;\n        }\n    }\n}\n",
@@ -473,7 +473,8 @@ def hostile_programs(rng, tier):
         if sp is None:
             continue
         pre, op, mid, cl, post = sp
-        for n in ([20, 100, 200] if tier == "quick" else [20, 60, 100, 150, 200, 230]):
+        fit = DEEP_FIT[name]
+        for n in ([20, fit // 2, fit] if tier == "quick" else [20, fit // 4, fit // 2, 3 * fit // 4, fit - 1, fit]):
             one("deep:%s" % name, pre + op * n + mid + cl * n + post)
     for n in ([100, 400] if tier == "quick" else [100, 400, 1000]):
         one("deep:structnest", "module A {\n" + "".join("    struct S%d {\n        s: S%d,\n    }\n" % (i, i + 1) for i in range(n)) +
@@ -481,8 +482,8 @@ def hostile_programs(rng, tier):
         one("deep:typechain", "module A {\n" + "".join("    type T%d = T%d;\n" % (i, i + 1) for i in range(n)) + "    type T%d = logic;\n    var a: T0;\n    assign a = 0;\n}\n" % n)
         one("deep:constchain", "module A {\n" + "".join("    const C%d: u32 = C%d + 1;\n" % (i, i + 1) for i in range(n)) + "    const C%d: u32 = 1;\n    var a: logic<C0>;\n    assign a = 0;\n}\n" % n)
         one("deep:instchain", "".join("module M%d {\n    inst m: M%d;\n}\n" % (i, i + 1) for i in range(n)) + "module M%d {\n}\n" % n)
-        one("deep:fnchain", "module A {\n" + "".join("    function f%d (\n        a: input u32,\n    ) -> u32 {\n        return f%d(a) + 1;\n    }\n" % (i, i + 1) for i in range(n)) +
-            "    function f%d (\n        a: input u32,\n    ) -> u32 {\n        return a;\n    }\n    const X: u32 = f0(1);\n    var a: logic<X>;\n    assign a = 0;\n}\n" % n)
+        one("deep:fnchain", "module A {\n" + "".join("    function fn%d (\n        a: input u32,\n    ) -> u32 {\n        return fn%d(a) + 1;\n    }\n" % (i, i + 1) for i in range(n)) +
+            "    function fn%d (\n        a: input u32,\n    ) -> u32 {\n        return a;\n    }\n    const X: u32 = fn0(1);\n    var a: logic<X>;\n    assign a = 0;\n}\n" % n)
     for n in ([3000] if tier == "quick" else [3000, 30000]):
         one("long:opchain", "module A {\n  var a: logic<8>;\n  assign a = 1" + " + 1" * n + ";\n}\n")
         one("long:concat", "module A {\n  var a: logic<8>;\n  assign a = {1'b1" + ", 1'b1" * n + "};\n}\n")
@@ -505,6 +506,10 @@ def hostile_programs(rng, tier):
         out.append(("multi:" + k, v))
     return out
 
+
+# deepest nesting of each family that the parser's depth cap (1152) still accepts, minus a margin
+DEEP_FIT = {"genif": 215, "genfor": 215, "genblock": 220, "ifstmt": 180, "forstmt": 180, "paren": 220, "concat": 155,
+            "ifexpr": 155, "caseexpr": 180, "call": 80, "index": 135}
 
 _ID_RE = re.compile(r"[A-Za-z_][A-Za-z0-9_]*$")
 _NUM_RE = re.compile(r"[0-9][0-9a-zA-Z_']*$")
